@@ -18,6 +18,7 @@ let unigrams = ref [] and higher : (int * gram) list ref = ref []
 let tp = ref (LoadError MissingUnigram) and tt = ref (LoadError MissingUnigram) and tr = ref (LoadError MissingUnigram)
 let arpa_tbl : (n list * (z * z)) list ref = ref []
 let bos_id = ref N0
+let spellings : (int * z list) list ref = ref []
 
 let err_name = function MissingContext -> "missing-context" | TableFull -> "table-full" | MissingUnigram -> "missing-unigram"
 let loaded_str = function Loaded _ -> "ok" | LoadError e -> "err:" ^ err_name e
@@ -36,7 +37,7 @@ let handle (line : string) : string =
   | "MODEL" :: o :: su :: up :: b :: [] ->
       order := int_of_string o; saw_unk := (su = "1"); unk_prob := z_of_hex up;
       buckets := List.map (fun x -> nat_of_int (int_of_string x)) (String.split_on_char ',' b);
-      unigrams := []; higher := []; arpa_tbl := []; "."
+      unigrams := []; higher := []; arpa_tbl := []; spellings := []; "."
   | "BOS" :: id :: [] -> bos_id := n_of_hex id; "."
   | "U" :: id :: p :: b :: pz :: [] ->
       let g = { g_key = [n_of_hex id]; g_prob = z_of_hex p; g_bo = z_of_hex b; g_pz = (pz = "1") } in
@@ -253,6 +254,32 @@ let handle (line : string) : string =
                 let buf = Buffer.create 4096 in
                 List.iter (fun b -> Buffer.add_string buf (Printf.sprintf "%02x" (int_of_string ("0x" ^ hex_of_z b)))) bytes;
                 "img " ^ Buffer.contents buf))
+  | "W" :: id :: hx :: [] ->
+      (* spelling (hex bytes) of the word with this (implementation) id *)
+      let bytes = List.init (String.length hx / 2) (fun i -> z_of_hex (String.sub hx (2 * i) 2)) in
+      spellings := (int_of_string ("0x" ^ id), bytes) :: !spellings; "."
+  | "FIMG" :: kd :: rest ->
+      (* the complete binary file (coq/C04/FileImage.v):  FIMG T|A <cfg> <pm bits> <include_vocab>   /   FIMG P <pm bits> <include_vocab> <vocab buckets> <arpa counts,>  *)
+      let words = List.map snd (List.sort compare (List.filter (fun (i, _) -> i > 0) !spellings)) in
+      let hexout bytes =
+        let buf = Buffer.create 4096 in
+        List.iter (fun b -> Buffer.add_string buf (Printf.sprintf "%02x" (int_of_string ("0x" ^ hex_of_z b)))) bytes;
+        "file " ^ Buffer.contents buf in
+      let pz = List.filter_map (fun g -> if g.g_pz then Some g.g_key else None) !unigrams in
+      (match kd, rest with
+       | ("T" | "A"), [cfg; pm; iv] ->
+           (match !tt with
+            | LoadError _ -> "not-loaded"
+            | Loaded t -> hexout (trie_file (kd = "A") (z_of_hex cfg) (z_of_hex pm) (nat_of_int !order) t pz words (iv = "1")))
+       | "P", [pm; iv; vb; cs] ->
+           (match !tp with
+            | LoadError _ -> "not-loaded"
+            | Loaded t ->
+                let counts = List.map (fun x -> z_of_int (int_of_string x)) (String.split_on_char ',' cs) in
+                (match probing_file (z_of_hex pm) (nat_of_int !order) t counts (nat_of_int (int_of_string vb)) !buckets words (iv = "1") with
+                 | None -> "table-full"
+                 | Some b -> hexout b))
+       | _ -> "?")
   | "DUMP" :: kd :: k :: [] ->
       (match (if kd = "P" then !tp else if kd = "R" then !tr else !tt) with
        | LoadError _ -> "not-loaded"
